@@ -166,7 +166,7 @@ QUICK = {
                      'svb_append_range__strong_FI_FI', 'svb_emplace_into_reallocation__pE_pcE', 'sv_push_back__pcE', 'sv_push_back__pE', 'sv_emplace_back__pcE', 'sv_reserve',
                      'sv_shrink_to_fit', 'sv_resize__ul', 'sv_append__pcE_pcE'],
             'tmove': _TMOVE + ['svb_resize_with__ul', 'svb_append_element__pE']},
-    'C07': {'main': _ALLOC + ['svb_ctor__ul_pcE_pcA', 'svb_ctor__pcA', 'svb_ctor__pcsvb_pcA'], 'aprop': _ALLOC, 'aeq': _ALLOC, 'pocs': _ALLOC,
+    'C07': {'main': _ALLOC + ['svb_ctor__ul_pcE_pcA', 'svb_ctor__pcA', 'svb_ctor__pcsvb_pcA', 'svb_ctor__pcsvb', 'sv_ctor__pcsv_pcA', 'sv_assign__pcsv', 'sv_op_assign__pcsv'], 'aprop': _ALLOC + ['svb_ctor__pcsvb', 'sv_assign__pcsv'], 'aeq': _ALLOC, 'pocs': _ALLOC,
             'pocma': ['svb_move_assign_default__psvb', 'svb_move_assign__psvb', 'svb_copy_assign__pcsvb']},
     'C09': {'main': ['svb_move_assign_default__psvb', 'svb_swap_default', 'svb_ctor__psvb', 'svb_move_assign_unequal_no_propagate__psvb', 'svb_swap_unequal_no_propagate', 'svb_dtor', 'svb_ctor__pcA'],
             'pocs': ['svb_swap__psvb', 'svb_swap_default', 'svb_move_assign_default__psvb'], 'aeq': ['svb_swap_default', 'svb_move_assign_default__psvb'],
